@@ -13,6 +13,7 @@ pub mod c09;
 pub mod c10;
 pub mod c11;
 pub mod c12;
+pub mod c13;
 pub mod c14;
 pub mod c15;
 pub mod c16;
@@ -47,6 +48,7 @@ pub fn all() -> Vec<PropertyDef> {
         c10::def(),
         c11::def(),
         c12::def(),
+        c13::def(),
         c14::def(),
         c15::def(),
         c16::def(),
